@@ -15,7 +15,7 @@ from vf.core import Check, HarnessError
 from coba.context import CobaContext, NullLogger, MemoryCacher
 from coba.primitives import Categorical, BinaryReward, DiscreteReward, L1Reward, HammingReward, Environment, is_batch
 from coba.environments import Environments
-from coba.environments.filters import Repr, Flatten, Sparsify, Densify, Noise, Batch, Unbatch, Finalize, BatchSafe
+from coba.environments.filters import Repr, Flatten, Sparsify, Densify, Noise, Batch, Unbatch, Finalize, BatchSafe, Grounded
 from coba.pipes.rows import HeadDense, SparseDense
 
 CobaContext.search_paths = []
@@ -62,6 +62,9 @@ def make_actions(kind, v):
                                     [{'ns': [C('z', LV3), 3], 'v': 30}, {'ns': [C('x', LV3), 1], 'v': 10}, {'ns': [C('y', LV3), 2], 'v': 20}])
     if kind == 'lnscat':    return ([[{'kk': C('x', LV3), 'n': 1}, 10], [{'kk': C('y', LV3), 'n': 2}, 20]] if v == 0 else         # dict in a list
                                     [[{'kk': C('z', LV3), 'n': 3}, 30], [{'kk': C('x', LV3), 'n': 1}, 10], [{'kk': C('y', LV3), 'n': 2}, 20]])
+    if kind == 'spsub':     return ([{'a': 1}, {'a': 1, 'b': 2}, {'c': 3}] if v == 0 else        # an action's features contained in a later one; an empty action
+                                    [{}, {'b': 2}, {'b': 2, 'c': 3}])
+    if kind == 'vecsub':    return [(1, 0), (1, 2), (0, 3)] if v == 0 else [(0, 0), (0, 2), (3, 2)]   # same for dense vectors (zeros vanish under Sparsify)
     if kind in SP_NAMES:    # one-key sparse actions; every kind has its own feature names, v=1 lists them in another order
         names = SP_NAMES[kind]
         return [{k: 1} for k in names] if v == 0 else [{k: 2} for k in names[1:] + names[:1]]
@@ -73,9 +76,9 @@ def make_actions(kind, v):
 
 
 AKINDS = ['num', 'str', 'cat2', 'cat3', 'vec', 'lvec', 'nest', 'tnest', 'sparse', 'snest', 'veccat', 'catvec',
-          'sparsecat', 'nestcat', 'tnestcat', 'nscat', 'lnscat', 'mixed', 'labels', 'head']
-HASHABLE = {'num', 'str', 'cat2', 'cat3', 'vec', 'tnest', 'veccat', 'catvec', 'tnestcat', 'mixed'}
-SPARSE_CTX = {'sparse', 'snest', 'sparsecat', 'nscat'}
+          'sparsecat', 'nestcat', 'tnestcat', 'nscat', 'lnscat', 'spsub', 'vecsub', 'mixed', 'labels', 'head']
+HASHABLE = {'num', 'str', 'cat2', 'cat3', 'vec', 'tnest', 'veccat', 'catvec', 'tnestcat', 'vecsub', 'mixed'}
+SPARSE_CTX = {'sparse', 'snest', 'sparsecat', 'nscat', 'spsub'}
 
 
 def make_context(akind, k):
@@ -247,9 +250,14 @@ class ListEnv(Environment):
 
 def show(x):
     """Stable, readable rendering for messages (lazy rows as lists, no addresses)."""
-    if isinstance(x, (SparseDense, HeadDense)): return f'{type(x).__name__}({list(x)!r})'
+    if isinstance(x, (SparseDense, HeadDense)):
+        try: return f'{type(x).__name__}({list(x)!r})'
+        except Exception as e: return f'{type(x).__name__}(<cannot be iterated: {type(e).__name__}>)'   # noqa
     if isinstance(x, list): return '[' + ', '.join(map(show, x)) + ']'
     return re.sub(r' at 0x[0-9a-f]+', '', repr(x))
+
+
+LAZY = (SparseDense, HeadDense)
 
 
 def observe(fn, actions):
@@ -276,7 +284,7 @@ def index_of(actions, action):
 
 
 def has_duplicates(actions):
-    return any(index_of(actions, a) != i for i, a in enumerate(actions))
+    return any(index_of(actions, a) not in (i, None) for i, a in enumerate(actions))
 
 
 def unbatch_plain(outs):
@@ -332,10 +340,35 @@ def raised(e, inters, base):
             {'changed': False, 'sig': ('raise', type(e).__name__), 'rewritten': rewritten, 'hashcol': False})
 
 
+HISTORIES = (3, 350, 1400)        # x 3 actions: below / above the cache sizes 1024 and 4096
+
+
+def build_grounded(case):
+    """case['n'] IGL interactions as the REAL Grounded filter makes them (lazily drawn, memoised feedback functions), all
+    inspected once (that inspection is the history: 3*n feedback evaluations) -> (interactions, snapshot)."""
+    ak, sim = case['a'], []
+    for k in range(case['n']):
+        A = make_actions(ak, 0)
+        vals = [((k + i) % len(A) + 1) / 8 for i in range(len(A))]           # the best action rotates
+        sim.append({'context': k, 'actions': A, 'rewards': vals if case['r'] == 'list' else BinaryReward(make_actions(ak, 0)[k % len(A)])})
+    inters = [dict(o) for o in Grounded(4, 2, 20, 10, 7).filter(sim)]
+    base = []
+    for it in inters:
+        A = it['actions']
+        b = {'n': len(A), 'shown': show(A), 'rewards': observe(it['rewards'], A), 'feedbacks': observe(it['feedbacks'], A)}
+        if b['rewards'][0] != 'vals' or b['feedbacks'][0] != 'vals': raise HarnessError(f'Grounded baseline not observable: {b} for {case}')
+        base.append(b)
+    return inters, base
+
+
 def evaluate(case):
     """Run one case on the real filters -> (failures, info).  failures: list of (target, mode, detail)."""
     if case['via'] in ('envs2', 'reuse'): return evaluate_multi(case)
-    inters, base = build_interactions(case)
+    if case['via'] == 'grounded':
+        inters, base = build_grounded(case)
+        case = dict(case, via=case['route'])
+    else:
+        inters, base = build_interactions(case)
     try:
         outs = run_chain(case, inters)
     except HarnessError:
@@ -404,6 +437,8 @@ def compare(chain, inters, base, outs):
         if A is None or len(A) != b['n']:
             fails.append(('actions', 'count changed', f'interaction {k}: {b["n"]} actions became {show(A)}')); continue
         if show(A) != b['shown']: info['changed'] = True
+        if any(index_of([a], a) is None for a in A):
+            fails.append(('actions', 'an action is not even equal to itself', f'interaction {k}: {show(A)}')); continue
         if has_duplicates(A):
             if hashing: info['sig'] = 'hash-collision'; info['hashcol'] = True; continue      # documented limitation of the hashing trick (never seen with N_HASH=64)
             fails.append(('actions', 'distinct actions became equal', f'interaction {k}: {show(A)}')); continue
@@ -416,6 +451,15 @@ def compare(chain, inters, base, outs):
             if got != b[target]:
                 fails.append((target, 'no longer pair with actions',
                               f'interaction {k}: actions {b["shown"]} earned {b[target][1]}; after the chain {show(A)} earn {got[1]} ({type(new[target]).__name__})'))
+            elif callable(new[target]) and any(isinstance(a, LAZY) for a in A):
+                # what Harden/Finalize does next: lazy rows become plain lists and the reward function is asked with those
+                try:
+                    got = observe(new[target], [list(a) if isinstance(a, LAZY) else a for a in A])
+                except Exception as e:   # noqa
+                    got = ('raises', type(e).__name__)
+                if got != b[target]:
+                    fails.append((target, 'no longer pair with actions once the lazy action rows are materialised as lists',
+                                  f'interaction {k}: actions {b["shown"]} earned {b[target][1]}; after the chain the list copies of {show(A)} earn {got[1]} ({type(new[target]).__name__})'))
         if 'action' in b:
             if 'action' not in new:
                 fails.append(('action', 'dropped', f'interaction {k}'))
@@ -475,7 +519,7 @@ def reproduces(case, target, mode):
     return bool(same(evaluate(case)[0], target, mode))
 
 
-CANON_A = ('num', 'vec', 'cat3', 'sparse', 'nest', 'veccat', 'sparsecat', 'nestcat')
+CANON_A = ('num', 'vec', 'cat3', 'sparse', 'nest', 'veccat', 'sparsecat', 'nestcat', 'spsub')
 
 
 def alone_candidates(cur, op):
@@ -495,6 +539,16 @@ def diagnose(case, fails):
     that merely trips over what an earlier one left behind is not blamed); feature = its parameter bucket + the minimal
     input features without which the same failure disappears (found by differential re-runs on simpler cases)."""
     chain, via = case['chain'], case['via']
+    if via == 'grounded':
+        out = []
+        for target, mode in sorted({(t, m) for t, m, _ in fails}):
+            n = next(h for h in HISTORIES if h >= case['n'] or reproduces(dict(case, n=h), target, mode))
+            cur = dict(case, n=n)
+            comp = COMP[chain[-1][0]] if chain else 'Finalize'
+            if n == HISTORIES[0]: key = f'{comp}|{WHAT[target] + mode}|{(bucket(chain[-1], target) if chain else "") + " Grounded interactions"}'.replace('| ', '|')
+            else: key = f'Grounded|{WHAT[target] + mode}|after a history of >={n} interactions'
+            out.append((key, same(evaluate(cur)[0], target, mode)[0][2], cur))
+        return out
     if via in ('envs2', 'reuse'):
         # a member that also fails on its own is an ordinary finding; otherwise the sharing is what breaks it
         out, seen = [], set()
@@ -591,6 +645,7 @@ def core_profiles(tier):
 
 
 PATTERN_KINDS = ('cat2', 'cat3', 'veccat', 'nestcat', 'num', 'sparsecat')
+GROUNDED_KINDS = ('num', 'cat3', 'veccat')          # GroundedFeedback memoises by action, so actions must be hashable
 MULTI_KINDS = ('sp1', 'sp2', 'sp3', 'sp4', 'sparse', 'cat3', 'vec', 'nestcat')
 MULTI_R = ('list', 'discrete', 'binary', 'binary0v', 'lambda')
 MULTI_PROFILES = ([(r, None, None) for r in MULTI_R] + [(r, 'lambda', None) for r in MULTI_R]
@@ -601,9 +656,9 @@ class C10(Check):
     ID = 'C10'
     LEVEL = 'exploration'
     ENGINE = 'ENUM'
-    RULE = ('cases = (interaction profile, chain of representation filters, entry point). Profile: 20 action kinds (numbers, strings, '
+    RULE = ('cases = (interaction profile, chain of representation filters, entry point). Profile: 22 action kinds (numbers, strings, '
             'Categoricals over 2/3 levels, tuples, lists, nested lists/tuples, sparse dicts incl. nested values, vectors/dicts holding '
-            'Categoricals, Categoricals nested in list-in-list / tuple-in-tuple / dict-of-list / dict-in-list, mixed scalars, label lists, lazy HeadDense rows) x reward kind (list, tuple, BinaryReward with default value and with value 2.5 / -1 / 0, DiscreteReward in '
+            'Categoricals, Categoricals nested in list-in-list / tuple-in-tuple / dict-of-list / dict-in-list, sparse/dense sets where one action\'s features are contained in a later one and with an all-zero/empty action, mixed scalars, label lists, lazy HeadDense rows) x reward kind (list, tuple, BinaryReward with default value and with value 2.5 / -1 / 0, DiscreteReward in '
             'action order / reversed order / as mapping / partial with default, L1Reward, HammingReward, plain lambda) x one of {no extra, '
             'IGL feedbacks of 9 kinds (every kind next to list/discrete rewards, list/lambda feedbacks next to every reward kind), logged action at first/last index with or without rewards} x interaction histories over two action sets (all of {A,B}^<=4 for 6 action kinds incl. categoricals, '
             '<=3 interactions for the rest). Chains: every sequence over the 36-op alphabet Repr(4x4) | Flatten | Sparsify(2x2) | Densify(2 methods x 2x2) | '
@@ -618,11 +673,12 @@ class C10(Check):
         'duplicate actions inside one interaction are not generated; if Densify(method=hashing, action=True) is in the chain and two actions become equal (hash collision, documented) nothing is demanded',
         'reward noise is not used (it changes rewards by design); action noise is integer and injective so actions stay distinct',
         'batched interactions are only passed to Unbatch, to BatchSafe(Finalize()) (what Environments appends) or returned; unbatched filters on batched data are outside the alphabet',
-        'an all-zero dense action / empty sparse action (Sparsify drops zeros) is not generated',
         'logged action membership is by == (a Categorical equals its string), so Repr(None,"string") leaving the logged action categorical is accepted',
         'contexts are present but never inspected; exceptions raised by a filter or by a re-represented reward function are violations because the statement promises a result for these inputs',
         'reward/feedback functions are built over independent copies of the actions (no aliasing with interaction["actions"]); what every action earns and a rendering of the actions are recorded as plain data BEFORE the chain runs',
         'secondary oracle: if a chain rewrites the caller\'s input action objects in place, the input interactions must still pair their own actions with their own rewards/feedbacks/logged action (reported under its own "caller-owned input" key); in-place edits without a pairing consequence (e.g. list rewards) are only counted (counter input_actions_rewritten_in_place)',
+        'lazy action rows (SparseDense, HeadDense) are additionally asked as plain list copies, which is what Harden/Finalize hands to the reward function next; tuples/lists/dicts are never converted',
+        'history dimension: IGL interactions produced by the real Grounded filter (memoised, lazily drawn feedback) are all inspected once (3, 350, thorough 1400 interactions x 3 actions, i.e. below/above cache sizes 1024 and 4096) before the representation change; the snapshot is that inspection',
         'multi-environment / re-use cases: Densify(lookup) tables are sized so that every SINGLE environment (shortcut) resp. all streams together (one re-used filter object) fit; collisions beyond n_feats within one table are documented behaviour and never generated',
         'a two-environment or re-use case whose member also fails alone is reported under the ordinary key; only otherwise under "one shortcut call over two environments" / "filter object re-used on another stream"',
         'Cycle is not in the statement\'s list and is not explored; torch batches are absent from the environment',
@@ -666,6 +722,14 @@ class C10(Check):
                     for (ak, rk, fk, lg) in pr:
                         for ch in chs:
                             yield {'a': ak, 'r': rk, 'f': fk, 'lg': lg, 'n': n, 'chain': ch, 'via': via}
+        # IGL interactions made by the real Grounded filter, inspected (= history of 3*n feedback evaluations), then re-represented
+        for n in HISTORIES[:2] if quick else HISTORIES:
+            for ak in GROUNDED_KINDS:
+                for rk in ('list', 'binary'):
+                    for route in ('filters', 'envs'):
+                        if route == 'envs' and n > 350: continue
+                        for ch in chains(OPS_FULL, 1) if route == 'filters' else [[]] + [c for c in chains(OPS_FULL, 1) if c[0][0] != 'finalize']:
+                            yield {'a': ak, 'r': rk, 'f': None, 'lg': None, 'n': n, 'chain': ch, 'via': 'grounded', 'route': route}
         # two environments with different data under ONE shortcut call (read in both orders) / one filter object on streams A, B, A
         one = [c for c in chains(OPS_FULL, 1)]
         two = [] if quick else [c for c in chains(OPS_CORE, 2)]
@@ -688,7 +752,8 @@ class C10(Check):
         if case['via'] == 'envs': acc.count('through_Environments_shortcuts')
         if case['via'] == 'envs2': acc.count('two_environments_under_one_shortcut_call')
         if case['via'] == 'reuse': acc.count('filter_object_reused_on_streams_A_B_A')
-        if len(pattern(case['n'])) >= 3: acc.count('histories_of_3_or_4_interactions')
+        if case['via'] == 'grounded': acc.count('grounded_histories_of_%d_interactions' % case['n'])
+        elif len(pattern(case['n'])) >= 3: acc.count('histories_of_3_or_4_interactions')
         if info['hashcol']: acc.count('hash_collision_not_demanded')
         if info.get('rewritten'): acc.count('input_actions_rewritten_in_place')
         if fails: acc.count('failing_cases')
